@@ -494,11 +494,42 @@ func c10table() map[string][]guardSpec {
 // renterView: a renter RPC function with its helpers and local closures
 // expanded; the functions the table names and the round-trip helper stay calls.
 func renterView(c *Ctx, f *ir.Func) *ir.Func {
+	return renterViews(c).Of(f)
+}
+
+// renterViews: package rhp with helpers expanded; the exported functions the
+// table names and the round-trip helper stay calls. An unexported function the
+// table names (the shared body of the two refresh RPCs) is expanded into its
+// exported callers, where its function-valued parameters are known.
+func renterViews(c *Ctx) *ir.ViewSet {
 	table := c10table()
 	return c.P.Views("rhp", ir.ExpandOpt{Key: "renter-rpcs", Stop: func(fn *types.Func) bool {
 		_, unit := table[fn.Name()]
-		return unit || fn.Name() == "callSingleRoundtripRPC"
-	}}).Of(f)
+		return (unit && fn.Exported()) || fn.Name() == "callSingleRoundtripRPC"
+	}})
+}
+
+// renterTargets returns the views in which the table entry `name` is analysed:
+// the function's own view if it is a root, else the roots it was expanded into.
+func renterTargets(c *Ctx, name string) []*ir.Func {
+	vs := renterViews(c)
+	f := c.P.Fn("rhp", "", name)
+	if !vs.Absorbed[f] {
+		return []*ir.Func{vs.Of(f)}
+	}
+	var out []*ir.Func
+	for _, r := range vs.Roots {
+		for _, o := range r.Inlined {
+			if o == f.Obj {
+				out = append(out, r)
+				break
+			}
+		}
+	}
+	if len(out) == 0 {
+		return []*ir.Func{vs.Of(f)}
+	}
+	return out
 }
 
 func c10r1(c *Ctx) {
@@ -509,25 +540,26 @@ func c10r1(c *Ctx) {
 	}
 	sortStrings(names)
 	for _, name := range names {
-		f := renterView(c, c.P.Fn("rhp", "", name))
-		env := newRenterEnv(c.P, f)
-		c.VisitGraph(f)
-		for _, g := range table[name] {
-			ob := c.Ob(f, g.id, f.Body.Pos())
-			targets := env.successReturns(g.revOnly)
-			if len(targets) == 0 {
-				ob.Unknown("no success return in scope (revision-carrying: %v)", g.revOnly)
-				continue
-			}
-			cands := g.cands(env)
-			if ok, pos := env.holds(cands, targets); ok {
-				ob.Pos = c.P.Pos(pos)
-				ob.OK("guard at %s dominates %d success return(s)", c.P.Pos(pos), len(targets))
-			} else if len(cands) == 0 {
-				ob.Bad(nil, "%s: no %s check with locally controlled operands exists in %s, yet it reports success", g.what, g.id, name)
-			} else {
-				ob.Pos = c.P.Pos(cands[0].pos)
-				ob.Bad(nil, "%s: the %s check at %s does not separate success from failure (its failing side reaches a success return, or a success return bypasses it)", g.what, g.id, c.P.Pos(cands[0].pos))
+		for _, f := range renterTargets(c, name) {
+			env := newRenterEnv(c.P, f)
+			c.VisitGraph(f)
+			for _, g := range table[name] {
+				ob := c.Ob(f, g.id, f.Body.Pos())
+				targets := env.successReturns(g.revOnly)
+				if len(targets) == 0 {
+					ob.Unknown("no success return in scope (revision-carrying: %v)", g.revOnly)
+					continue
+				}
+				cands := g.cands(env)
+				if ok, pos := env.holds(cands, targets); ok {
+					ob.Pos = c.P.Pos(pos)
+					ob.OK("guard at %s dominates %d success return(s)", c.P.Pos(pos), len(targets))
+				} else if len(cands) == 0 {
+					ob.Bad(nil, "%s: no %s check with locally controlled operands exists in %s, yet it reports success", g.what, g.id, name)
+				} else {
+					ob.Pos = c.P.Pos(cands[0].pos)
+					ob.Bad(nil, "%s: the %s check at %s does not separate success from failure (its failing side reaches a success return, or a success return bypasses it)", g.what, g.id, c.P.Pos(cands[0].pos))
+				}
 			}
 		}
 	}
@@ -544,109 +576,110 @@ func sortStrings(s []string) {
 func c10r2(c *Ctx) {
 	names := []string{"RPCFreeSectors", "RPCAppendSectors", "RPCSectorRoots", "RPCFundAccounts", "RPCReplenishAccounts", "RPCReplenishPools", "RPCFormContract", "RPCRenewContract", "rpcRefreshContract"}
 	for _, name := range names {
-		f := renterView(c, c.P.Fn("rhp", "", name))
-		env := newRenterEnv(c.P, f)
-		g := f.Graph()
-		c.VisitGraph(f)
-		for _, r := range g.Returns() {
-			if f.ClassifyReturn(r) != ir.RetSuccess {
-				continue
-			}
-			rs := r.AST.(*ast.ReturnStmt)
-			// find Revision: <expr> inside the returned composite literal
-			var revExpr ast.Expr
-			ir.Walk(rs, false, func(x ast.Node) {
-				if kv, ok := x.(*ast.KeyValueExpr); ok {
-					if k, ok := kv.Key.(*ast.Ident); ok && k.Name == "Revision" {
-						revExpr = kv.Value
+		for _, f := range renterTargets(c, name) {
+			env := newRenterEnv(c.P, f)
+			g := f.Graph()
+			c.VisitGraph(f)
+			for _, r := range g.Returns() {
+				if f.ClassifyReturn(r) != ir.RetSuccess {
+					continue
+				}
+				rs := r.AST.(*ast.ReturnStmt)
+				// find Revision: <expr> inside the returned composite literal
+				var revExpr ast.Expr
+				ir.Walk(rs, false, func(x ast.Node) {
+					if kv, ok := x.(*ast.KeyValueExpr); ok {
+						if k, ok := kv.Key.(*ast.Ident); ok && k.Name == "Revision" {
+							revExpr = kv.Value
+						}
+					}
+				})
+				if revExpr == nil {
+					continue
+				}
+				ob := c.Ob(f, "returned-revision-is-local", revExpr.Pos())
+				root := f.ObjOf(rootOfLvalue(revExpr))
+				if !env.revVars[root] {
+					if env.taint.Expr(f, revExpr) {
+						ob.Bad(nil, "the revision returned with a nil error at %s (%s) is not the locally constructed value but derives from the host's response: its fields are not covered by the signature checks", c.P.Pos(revExpr.Pos()), ir.ExprString(revExpr))
+					} else {
+						ob.OK("unchanged caller-supplied revision")
+					}
+					continue
+				}
+				onlyConstructed := true
+				for _, d := range wholeDefs(f, root) {
+					if vs, ok := d.Stmt.(*ast.ValueSpec); ok && len(vs.Values) == 0 {
+						continue // zero-value declaration
+					}
+					rhs := d.RHS
+					if rhs == nil {
+						rhs = ir.TupleRHS(d.Stmt)
+					}
+					call, ok := ast.Unparen(rhs).(*ast.CallExpr)
+					if !ok || !isCoreConstructor(f.Callee(call)) {
+						onlyConstructed = false
 					}
 				}
-			})
-			if revExpr == nil {
-				continue
-			}
-			ob := c.Ob(f, "returned-revision-is-local", revExpr.Pos())
-			root := f.ObjOf(rootOfLvalue(revExpr))
-			if !env.revVars[root] {
-				if env.taint.Expr(f, revExpr) {
-					ob.Bad(nil, "the revision returned with a nil error at %s (%s) is not the locally constructed value but derives from the host's response: its fields are not covered by the signature checks", c.P.Pos(revExpr.Pos()), ir.ExprString(revExpr))
-				} else {
-					ob.OK("unchanged caller-supplied revision")
-				}
-				continue
-			}
-			onlyConstructed := true
-			for _, d := range wholeDefs(f, root) {
-				if vs, ok := d.Stmt.(*ast.ValueSpec); ok && len(vs.Values) == 0 {
-					continue // zero-value declaration
-				}
-				rhs := d.RHS
-				if rhs == nil {
-					rhs = ir.TupleRHS(d.Stmt)
-				}
-				call, ok := ast.Unparen(rhs).(*ast.CallExpr)
-				if !ok || !isCoreConstructor(f.Callee(call)) {
-					onlyConstructed = false
-				}
-			}
-			if !onlyConstructed {
-				ob.Bad(nil, "the returned revision variable %s is (re)assigned other than by its core constructor", root.Name())
-				continue
-			}
-			modified := ""
-			for _, w := range f.WritesIn(f.Body, true) {
-				if _, isID := ast.Unparen(w.LHS).(*ast.Ident); isID || f.ObjOf(rootOfLvalue(w.LHS)) != root {
+				if !onlyConstructed {
+					ob.Bad(nil, "the returned revision variable %s is (re)assigned other than by its core constructor", root.Name())
 					continue
 				}
-				if sel, ok := ast.Unparen(w.LHS).(*ast.SelectorExpr); ok && (sel.Sel.Name == "RenterSignature" || sel.Sel.Name == "HostSignature") {
-					continue
-				}
-				modified = c.P.Pos(w.LHS.Pos())
-			}
-			if modified != "" {
-				ob.Bad(nil, "a field other than the two signatures of the locally built revision is overwritten at %s before it is returned", modified)
-				continue
-			}
-			// every host signature copied into the returned value must be verified on the way
-			good := true
-			why := ""
-			for _, n := range g.Nodes {
-				if n.AST == nil {
-					continue
-				}
-				for _, w := range f.WritesIn(n.AST, false) {
-					sel, ok := ast.Unparen(w.LHS).(*ast.SelectorExpr)
-					if !ok || sel.Sel.Name != "HostSignature" || w.RHS == nil || !env.taint.Expr(f, w.RHS) {
+				modified := ""
+				for _, w := range f.WritesIn(f.Body, true) {
+					if _, isID := ast.Unparen(w.LHS).(*ast.Ident); isID || f.ObjOf(rootOfLvalue(w.LHS)) != root {
 						continue
 					}
-					if !isPrefixLvalue(f, rootOfLvalue(revExpr), w.LHS) && !isPrefixLvalue(f, rootOfLvalue(w.LHS), revExpr) {
+					if sel, ok := ast.Unparen(w.LHS).(*ast.SelectorExpr); ok && (sel.Sel.Name == "RenterSignature" || sel.Sel.Name == "HostSignature") {
 						continue
 					}
-					// a VerifyHash whose second argument is the same signature (either the response expression or the stored field) must dominate the return
-					verified := false
-					for _, call := range f.CallsTo(false, env.verifyFn) {
-						if len(call.Expr.Args) != 2 {
-							continue
-						}
-						sig := call.Expr.Args[1]
-						if !(sameLvalue(f, sig, w.RHS) || sameLvalue(f, sig, w.LHS)) {
-							continue
-						}
-						if env.taint.Expr(f, call.Expr.Args[0]) && !hashOfLocal(env, call.Expr.Args[0]) {
-							continue
-						}
-						t, _ := boolCallEdges(f, call.Expr)
-						if f.OnlyVia(r, t) {
-							verified = true
-						}
+					modified = c.P.Pos(w.LHS.Pos())
+				}
+				if modified != "" {
+					ob.Bad(nil, "a field other than the two signatures of the locally built revision is overwritten at %s before it is returned", modified)
+					continue
+				}
+				// every host signature copied into the returned value must be verified on the way
+				good := true
+				why := ""
+				for _, n := range g.Nodes {
+					if n.AST == nil {
+						continue
 					}
-					if !verified {
-						good = false
-						why = c.P.Pos(n.Pos())
+					for _, w := range f.WritesIn(n.AST, false) {
+						sel, ok := ast.Unparen(w.LHS).(*ast.SelectorExpr)
+						if !ok || sel.Sel.Name != "HostSignature" || w.RHS == nil || !env.taint.Expr(f, w.RHS) {
+							continue
+						}
+						if !isPrefixLvalue(f, rootOfLvalue(revExpr), w.LHS) && !isPrefixLvalue(f, rootOfLvalue(w.LHS), revExpr) {
+							continue
+						}
+						// a VerifyHash whose second argument is the same signature (either the response expression or the stored field) must dominate the return
+						verified := false
+						for _, call := range f.CallsTo(false, env.verifyFn) {
+							if len(call.Expr.Args) != 2 {
+								continue
+							}
+							sig := call.Expr.Args[1]
+							if !(sameLvalue(f, sig, w.RHS) || sameLvalue(f, sig, w.LHS)) {
+								continue
+							}
+							if env.taint.Expr(f, call.Expr.Args[0]) && !hashOfLocal(env, call.Expr.Args[0]) {
+								continue
+							}
+							t, _ := boolCallEdges(f, call.Expr)
+							if f.OnlyVia(r, t) {
+								verified = true
+							}
+						}
+						if !verified {
+							good = false
+							why = c.P.Pos(n.Pos())
+						}
 					}
 				}
+				ob.Check(good, nil, "a host-supplied signature is stored into the returned revision at %s without a dominating VerifyHash of that signature over the locally computed hash", why)
 			}
-			ob.Check(good, nil, "a host-supplied signature is stored into the returned revision at %s without a dominating VerifyHash of that signature over the locally computed hash", why)
 		}
 	}
 }
